@@ -155,7 +155,9 @@ CondPieces ==
           f \in {Lit("no"), P("~a", <<S("F")>>)}, t \in {Lit("yes"), P("~d", <<IntV(3)>>)}, v \in {Nil, Sy("t"), IntV(0), S("")}}
   \cup {P("~@[" \o t.txt \o "~]", IF v.k = "nil" THEN <<v>> ELSE <<v>> \o t.args) : t \in {P("<~a>", <<>>), P("<~a ~a>", <<IntV(2)>>), Lit("set")}, v \in {Nil, IntV(5), S("s")}}
 CaseBodies == {Lit("hello WORLD foo-bar"), Lit("aBC dEF"), P("x ~a y", <<S("The Quick BROWN")>>), P("the ~r cats", <<IntV(21)>>), P("n~d ~(INNER~) z", <<IntV(3)>>),
-               P("one~%two three", <<>>), P("a~^b", <<>>), P("ab~10tcd", <<>>), Lit("")}
+               P("one~%two three", <<>>), P("a~^b", <<>>), P("ab~10tcd", <<>>), Lit(""),
+               \* the first word starts with a digit, or is all digits; punctuation and blanks in front of it
+               P("~d CATS and ~d DOGS", <<IntV(3), IntV(4)>>), Lit("1st PLACE"), Lit("(2 of THEM)"), Lit("  -x Y"), P("~a", <<S("42")>>)}
 CasePieces == {P("~" \o Mods(colon, at) \o "(" \o b.txt \o "~)", b.args) : colon \in BOOLEAN, at \in BOOLEAN, b \in CaseBodies}
 IndirectPieces ==
   {P("~?", <<S(b.txt), IF b.args = <<>> THEN Nil ELSE L(b.args)>>) : b \in Simple \cup Bodies}
